@@ -4,7 +4,9 @@
 package world
 
 import (
+	"connectrpc.com/vanguard/verifharness/wire"
 	"fmt"
+	"google.golang.org/protobuf/types/dynamicpb"
 	"sync"
 
 	"google.golang.org/genproto/googleapis/api/annotations"
@@ -116,6 +118,7 @@ func msgFile() *descriptorpb.FileDescriptorProto {
 				f("nums", 11, descriptorpb.FieldDescriptorProto_TYPE_INT32, "", true),
 				f("st", 13, M, ".google.protobuf.Struct", false),
 				f("kids", 14, M, ".verif.v1.Msg", true),
+				f("any_value", 15, M, ".google.protobuf.Any", false),
 			},
 		}},
 	}
@@ -153,6 +156,12 @@ func MsgFile() protoreflect.FileDescriptor {
 			panic(fmt.Sprintf("world: building msg.proto: %v", err))
 		}
 		msgFD = fd
+		// the harness's own codecs must be able to look into an Any that carries verif.v1.Msg
+		var fs protoregistry.Files
+		if err := fs.RegisterFile(fd); err != nil {
+			panic(fmt.Sprintf("world: registering msg.proto: %v", err))
+		}
+		wire.ExtraTypes = dynamicpb.NewTypes(&fs)
 	})
 	return msgFD
 }
